@@ -166,6 +166,38 @@ pub fn stale_gossip_case(i: u64, seed: u64) -> Scenario {
     sc
 }
 
+/// Three or four peers; in one and the same tick the observer L receives, from B, the announcement that C was
+/// dropped and, from C, the announcement that B was dropped (the two lost each other but both still reach L; each
+/// names the last frame it reports for the other anyway, so no deep rollback is involved). Dropping a player
+/// disconnects its endpoint, whose report then no longer counts for the handles scanned after it: which of the two
+/// L drops is decided by the order in which the handles are scanned, which must be the ascending one, not a map's.
+pub fn mutual_drop_case(i: u64, seed: u64) -> Scenario {
+    let r = mix(seed ^ 0x3d20, i);
+    let np = if (r >> 2) % 3 == 0 { 4 } else { 3 };
+    let mut sc = Scenario::basic(r, np);
+    sc.max_pred = [8u8, 12, 16][(r % 3) as usize];
+    let d = [0u8, 1, 2][((r >> 4) % 3) as usize];
+    for p in sc.peers.iter_mut() {
+        p.delay = d;
+    }
+    sc.sched = 0;
+    sc.notify_ms = 20000;
+    sc.timeout_ms = 40000;
+    let lat = ((r >> 8) % 12) as u16;
+    sc.link = crate::sim::net::LinkProfile { loss: 0, dup: 0, lat_min: lat, lat_max: lat };
+    // observer and the two remotes that announce each other
+    let l = ((r >> 16) % np as u64) as u8;
+    let others: Vec<u8> = (0..np as u8).filter(|p| *p != l).collect();
+    let b = others[((r >> 20) % others.len() as u64) as usize];
+    let c = *others.iter().find(|p| **p != b).unwrap();
+    let t0 = 70 + ((r >> 32) % 80) as u32;
+    sc.ops.push(Op::Forge { tick: t0, to: peer_addr(l as usize), from: peer_addr(b as usize), kind: 14, a: c as i32, b: 0, bytes: vec![] });
+    sc.ops.push(Op::Forge { tick: t0, to: peer_addr(l as usize), from: peer_addr(c as usize), kind: 14, a: b as i32, b: 0, bytes: vec![] });
+    sc.ticks = t0 + 80;
+    sc.settle = 40;
+    sc
+}
+
 pub fn eval_stale_gossip(sc: &Scenario) -> CaseResult {
     let mut r = eval(sc);
     r.classes.push("stale_gossip");
@@ -188,6 +220,9 @@ pub fn run_prop(ctx: &Ctx) -> PropReport {
     rep.part(|| run_enum(ctx, "stale_gossip_replicas",
         "4 peers L, A, B, X: X dies, a few ticks later (everybody holds all of its input) A drops it with disconnect_player; the link B -> L becomes slow (80..250 ms) shortly before, so when A's notice arrives the newest report L holds from B still names an earlier last frame for X: the earliest cut-off over L's endpoint map (and so the frame L rolls back to) must not depend on the order in which the map yields A and B; windows 24..48 keep the repeated rollbacks inside the window; three replicas each",
         ctx.tier.pick(400, 3000), move |i| stale_gossip_case(i, seed), eval_stale_gossip, false));
+    rep.part(|| run_enum(ctx, "mutual_drop_replicas",
+        "3-4 peers, one local player each: in one tick the observer receives B's announcement that C was dropped and C's announcement that B was dropped (copies of their last real input packets with the flag set, at the frames they report anyway); which of the two the observer drops (the lower handle: its endpoint is disconnected and its report no longer counts for the handles after it) must not depend on a map's iteration order; three replicas each",
+        ctx.tier.pick(300, 2000), move |i| mutual_drop_case(i, seed), eval_stale_gossip, false));
     rep.floors.push(("replicas".into(), 0.3));
     rep.assumptions = vec![
         "hash order cannot be forced; every replica samples one fresh RandomState per map. A dependence that needs one specific order of k keys is missed by 3 replicas with probability about (1/k!)^2..1".into(),
